@@ -7,6 +7,8 @@ Functions under contract (verbatim text of /repo/src, rewrite rules of lib.py on
                   AttributeValue::{u8_value, u16_value, udata_value, sdata_value, offset_value, exprloc_value},
                   Attribute::{name, form, raw_value, value, u8_value, u16_value, udata_value, sdata_value, offset_value,
                   exprloc_value},  UnitHeader::encoding (only as the argument of AttributeSpecification::size)
+  read/line.rs    parse_attribute (the line-table variant: [C03:line-decode-<form>] for ALL forms of FORMS - whatever it
+                  decodes it decodes as the table says; [C03:line-decode-total-*] for its form subset LINE_FORMS)
   types           AttributeSpecification, AttributeValue, Attribute, Expression, UnitType, UnitHeader (R-FIELDS: `section`)
 
 One source of truth: the per-form postconditions of `parse_attribute` and `get_attribute_size` AND the spec functions
@@ -26,9 +28,9 @@ layer (fixed-size reads, split/skip, read_uleb128, skip_leb128) a complete well-
 Under the fallible Reader contract the error KIND of a primitive is unconstrained, so "UnknownForm only for unknown forms"
 cannot be stated; address / word / SLEB128 / string reads have no exact error condition and get no totality clause.
 
-Finding (genuine defect, fails on the pinned tree -> exit 1):  F2  skip_attributes `skip_bytes += R::Offset::from_u8(len)`
-possible arithmetic overflow.  Native reproducer native/src/bin/f_attrs_1.rs (fix described there; with the fix applied
-the whole contract of skip_attributes verifies).
+Finding F2 (C01/C03, FIXED in /repo by commit 1bb5f6f): skip_attributes `skip_bytes += R::Offset::from_u8(len)` possible
+arithmetic overflow - the obligation fails on the tree before that commit.  Native reproducer native/src/bin/f_attrs_1.rs.
+On the fixed tree the batch exits 0.
 
 Assumed (TRUSTED = core's ledger, nothing added):
   verif_unreachable, Result::and_then, reader_clone            (core batch)
@@ -38,7 +40,7 @@ Assumed (TRUSTED = core's ledger, nothing added):
               no spec in Verus) -> attrvalue_clone / expression_clone / reader_clone.  The first two are VERIFIED models of
               what derive(Clone) generates; they rest only on reader_clone.
   closure contracts of `|val| u8::try_from(val).ok()` / u16: inserted annotation, verified against the closure body.
-Not decided here: read/line.rs parse_attribute (line-table variant), Abbreviation::parse_attributes / Attributes (batch
+Not decided here: Abbreviation::parse_attributes / Attributes (batch
 units), AttributeValue::string_value* (need DebugStr), EntriesRaw wrappers, readers with Offset != usize (A-OFFSET),
 agreement with llvm-dwarfdump.
 """
